@@ -25,6 +25,7 @@ import (
 	"github.com/ipfs/go-graphsync/responsemanager/hooks"
 	"github.com/ipfs/go-graphsync/responsemanager/queryexecutor"
 	"github.com/ipfs/go-graphsync/responsemanager/responseassembler"
+	"github.com/ipfs/go-graphsync/verifhook"
 )
 
 // The code in this file implements the internal thread for the response manager.
@@ -46,6 +47,7 @@ func (rm *ResponseManager) run() {
 		case <-rm.ctx.Done():
 			return
 		case message := <-rm.messages:
+			verifhook.Yield("respmgr.handle")
 			message.handle(rm)
 		}
 	}
